@@ -126,3 +126,30 @@ Theorem C08_fuel_not_observable_inst : forall now truths tc tcc cmds f1 f2 d,
 Proof. exact verify_inst_fuel_stable. Qed.
 Print Assumptions C08_fuel_not_observable.
 Print Assumptions C08_fuel_not_observable_inst.
+
+(* ---- composed with the threshold model (C02): what "counted" means ----
+   a layout is entered at this level only if it was loaded from a listed file <step>.<8 chars>.link of a step
+   of the enforced layout and is authorised for that step: by a public key that the step lists and the layout
+   defines and that verifies it, or by a certificate whose key id is the claimed id, that satisfies the step's
+   constraints and whose key verifies it.  A layout offered by anybody else is never followed. *)
+From IT Require Import spec.ThresholdSpec proofs.PipelineThreshold model.Subst.
+
+Theorem C08_entered_sublayout_is_authorised :
+  forall now truths tc tcc cmds fuel w path d layout_env keys step_name params inter x w' tr sname kid,
+    verify_inst now truths tc tcc cmds (S fuel) w path d layout_env keys step_name params inter = (x, w', tr) ->
+    In (EvEnterSublayout path sname kid) tr ->
+    exists layout0 layout st e,
+      e_payload layout_env = PLayout layout0 /\ substitute layout0 params = Ok layout /\
+      In st (l_steps layout) /\ s_name st = sname /\
+      In (kid, e) (load_name sname (ld_files d)) /\ env_is_layout e = true /\
+      (authorised_key (vsig_tbl truths) layout st kid e \/
+       authorised_cert (vsig_tbl truths) (tbl_get_cert tc) (cc_tbl tcc) st kid e).
+Proof.
+  intros now truths tc tcc cmds fuel w path d layout_env keys step_name params inter x w' tr sname kid H Hin.
+  unfold verify_inst in H.
+  destruct (C08_unauthorised_never_followed _ _ _ _ _ _ _ _ _ _ _ _ _ _ _ _ _ _ _ _ _ _ _ _ _ _ H Hin)
+    as [l0 [l [loaded [verified [links [e [Hp [Hs [Hl [Ht [H1 [H2 H3]]]]]]]]]]]].
+  destruct (verified_entry_is_authorised _ _ _ _ _ _ _ _ _ _ _ Hl Ht H1 H2) as [st [Hst [Hn [Hld Hauth]]]].
+  exists l0, l, st, e. auto 10.
+Qed.
+Print Assumptions C08_entered_sublayout_is_authorised.
